@@ -1,5 +1,5 @@
-CONSTANTS N = 5
-  Dups = FALSE
+CONSTANTS N = @@N@@
+  Dups = TRUE
   Wrong = "none"
 INIT Init
 NEXT Next
